@@ -693,6 +693,13 @@ func genListing(out *bufio.Writer, rng *rand.Rand, count int) int {
 				}
 			}
 			resp := ""
+			pmResp := ""
+			var normM gmars.Address
+			if rng.Intn(3) == 0 {
+				// names as the assembler can deliver them: quotes, blanks, non-ASCII bytes, empty
+				w.Name = []string{"", "a \"b\" c", "Imp \xc3\xa9\xff", "x\ty", "%d %s"}[rng.Intn(5)]
+				w.Author = []string{"", "\"", "A. N. Other", "\xe2\x82\xac", "by \"me\""}[rng.Intn(5)]
+			}
 			// now and then the caller reuses one variable for two AddWarrior calls on the same
 			// simulator (same name, author, entry and length; other code): both listings must
 			// denote what was passed at the time of the call
@@ -762,12 +769,33 @@ func genListing(out *bufio.Writer, rng *rand.Rand, count int) int {
 					}
 				}
 				resp = hexd([]byte(wr.LoadCode()))
+				// the other printers: LoadCodePMARS() (not in the Warrior interface, but exported on
+				// the handle), Instruction.String() and NormString(core size) of every cell
+				if pw, ok := wr.(interface{ LoadCodePMARS() string }); ok {
+					normM = cfg.CoreSize
+					switch rng.Intn(6) {
+					case 0:
+						normM = []gmars.Address{0, 1, 2, 3, cfg.CoreSize / 2, cfg.CoreSize + 1, 1 << 63, 1<<63 + 5, 1<<64 - 1}[rng.Intn(9)]
+					case 1:
+						normM = gmars.Address(rng.Uint64())
+					}
+					var sb, nb strings.Builder
+					for _, c := range w.Code {
+						sb.WriteString(c.String() + "\n")
+						nb.WriteString(c.NormString(normM) + "\n")
+					}
+					pmResp = hexd([]byte(pw.LoadCodePMARS())) + " " + hexd([]byte(sb.String())) + " " + hexd([]byte(nb.String()))
+				}
 			})
 			if f != "" {
 				resp = f
 			}
 			fmt.Fprintf(out, "K k%d listing %s %d %s | %s\n", n, cfgFields(cfg), w.Start, cellsd(w.Code), resp)
 			n++
+			if f == "" && pmResp != "" {
+				fmt.Fprintf(out, "KP k%d listing %s %d %s %s %s %d | %s\n", n, cfgFields(cfg), w.Start, cellsd(w.Code), hexd([]byte(w.Name)), hexd([]byte(w.Author)), uint64(normM), pmResp)
+				n++
+			}
 			if decoy != nil && f == "" && decoyResp != "" {
 				fmt.Fprintf(out, "K k%d listing %s %d %s | %s\n", n, cfgFields(cfg), decoy.Start, cellsd(decoy.Code), decoyResp)
 				n++
